@@ -269,3 +269,17 @@ PROPS["C04"] = {
          "quick": {"shards": 8, "checks": 40}, "thorough": {"shards": 16, "checks": 600, "timeout": 3000}},
     ],
 }
+
+PROPS["C02"] = {
+    "level": "exploration",
+    "technique": "model-based stateful property testing (rapid): fault sequences over a 3-replica mini-cluster (real replication/truncation/commit code, harness-driven metadata log), history invariants after every step",
+    "level_text": "TODO",
+    "level_note": "TODO",
+    "rule": "TODO",
+    "assumptions": TRUST,
+    "claimed": False,
+    "units": [
+        {"name": "C02", "pkg": "server", "test": "TestVerifC02",
+         "quick": {"shards": 8, "checks": 25}, "thorough": {"shards": 16, "checks": 400, "timeout": 3000}},
+    ],
+}
